@@ -286,6 +286,14 @@ func instrument(p pkgInfo, overlay map[string]string, stats map[string]int) {
 					n.Name = ast.NewIdent("atomic")
 					stats["atomic_imports"]++
 				}
+			case *ast.FuncDecl:
+				// an independent count of parser steps (C11): every entry of (*parser).parseExpr, whatever the parser itself counts
+				if p.name == "grammar" && n.Name.Name == "parseExpr" && n.Recv != nil && n.Body != nil {
+					call := &ast.ExprStmt{X: &ast.CallExpr{Fun: &ast.SelectorExpr{X: ast.NewIdent("vrt"), Sel: ast.NewIdent("ParseStep")}}}
+					n.Body.List = append([]ast.Stmt{call}, n.Body.List...)
+					usedRT = true
+					stats["parse_step_hooks"]++
+				}
 			case *ast.IndexExpr:
 				// element of a slice (heap memory that may be shared through the slice header)
 				if gen {
